@@ -210,6 +210,7 @@ func (e *Enc) havocMods(st *State, mods ModSet, label string) {
 		}
 		nv := e.declare(e.freshName(label+"$"+k), h.Sort)
 		st.set(h, nv)
+		e.sliceHeapWF(h, nv)
 		// objects allocated by this function that never escaped cannot be reached by the callee
 		for _, la := range e.localAllocs {
 			if !la.heaps[k] || la.block == nil || e.curBlock == nil || !la.block.Dominates(e.curBlock) {
@@ -656,6 +657,10 @@ func (e *Enc) encodeAppend(args []ssa.Value, v *ssa.Call, st *State) {
 	_, tCellShift := e.cellOf(args[1], "(- "+qj+" "+slen+")")
 	e.fact(fmt.Sprintf("(forall ((%s Int)) (! (=> (and (<= 0 %s) (< %s %s)) (= (select %s %s) (ite (< %s %s) (select %s %s) (select %s %s)))) :pattern ((select %s %s))))",
 		qj, qj, qj, n, afr, qj, qj, slen, Es, sCell, Et, tCellShift, afr, qj))
+	// prefix in relative-index form, triggered from a cell of the result: r[j] = s[j] with both
+	// sides written as at(off, j), so that quantified facts about s[j] fire without arithmetic
+	e.fact(fmt.Sprintf("(forall ((%s Int)) (! (=> (and (<= 0 %s) (< %s %s)) (= (select %s (at 0 %s)) (select %s %s))) :pattern ((select %s (at 0 %s)))))",
+		qj, qj, qj, slen, afr, qj, Es, sCell, afr, qj))
 	if _, isConst := constLenOf(args[1]); isConst {
 		// accumulate pattern (append(s, x)): the prefix fact is also triggered from the old cells,
 		// so that "there is an index in the result" goals find their witness. Not done for general
